@@ -783,6 +783,18 @@ impl Relation for OpRel {
     fn format_instance(i: &Vec<F>) -> Result<Vec<F>, Error> {
         Ok(i.clone())
     }
+    /// Cases that expose through the committed instance column carry, after their own
+    /// big-integer witnesses, a tag and the number of leading native witnesses that make
+    /// up the committed column (this function has no access to the case).
+    fn format_committed_instances(w: &(Vec<F>, Vec<BigUint>)) -> Vec<F> {
+        match w.1.as_slice() {
+            [.., tag, n] if *tag == BigUint::from(COMMIT_TAG) => {
+                let n: usize = n.try_into().unwrap_or(0);
+                w.0[..n.min(w.0.len())].to_vec()
+            }
+            _ => vec![],
+        }
+    }
     fn circuit(&self, s: &ZkStdLib, l: &mut impl Layouter<F>, _i: Value<Vec<F>>, w: Value<(Vec<F>, Vec<BigUint>)>) -> Result<(), Error> {
         let n = self.case.ins.len();
         let nb = self.case.bins.len();
@@ -816,8 +828,16 @@ fn family(c: &OpCase) -> &str {
     c.op.split('.').next().filter(|_| c.op.contains('.')).unwrap_or("native")
 }
 
+pub const COMMIT_TAG: u64 = 0xC0_117E_D000;
+
 pub fn witness(c: &OpCase) -> (Vec<F>, Vec<BigUint>) {
-    (c.ins.iter().map(|x| x.0).collect(), (0..c.bins.len()).map(|i| c.bin(i)).collect())
+    let mut bins: Vec<BigUint> = (0..c.bins.len()).map(|i| c.bin(i)).collect();
+    if c.op.starts_with("pi.") && c.op.ends_with(".committed") {
+        // one native-like value goes to the committed column (see OpRel::format_committed_instances)
+        bins.push(BigUint::from(COMMIT_TAG));
+        bins.push(BigUint::from(1u8));
+    }
+    (c.ins.iter().map(|x| x.0).collect(), bins)
 }
 
 pub fn arch(c: &OpCase) -> ZkStdLibArch {
